@@ -220,8 +220,8 @@ def lean_build(prop, repo_src):
         if not build_ok:
             res['ok'] = False
             res['problems'].append('theorem file Props/%s.lean no longer checks: %s' % (prop, _lake_errors(r.stdout + r.stderr)))
-        # textual audit over the whole library
-        for path in glob.glob(os.path.join(LEAN, 'Mdsort', '**', '*.lean'), recursive=True):
+        # textual audit over everything the property file imports (transitively)
+        for path in import_closure('Mdsort.Props.' + prop):
             body = strip_comments(open(path).read())
             for ln, line in enumerate(body.split('\n'), 1):
                 m = FORBIDDEN.search(line)
@@ -261,6 +261,23 @@ def lean_build(prop, repo_src):
                 else:
                     res['discharged'] += 1
     return res
+
+
+def import_closure(mod):
+    """Files of the Mdsort library reachable from module `mod` through imports."""
+    seen, todo, files = set(), [mod], []
+    while todo:
+        m = todo.pop()
+        if m in seen or not m.startswith('Mdsort'):
+            continue
+        seen.add(m)
+        path = os.path.join(LEAN, *m.split('.')) + '.lean'
+        if not os.path.exists(path):
+            continue
+        files.append(path)
+        for imp in re.findall(r'^import\s+(\S+)', open(path).read(), re.M):
+            todo.append(imp)
+    return files
 
 
 def _lake_errors(text):
@@ -479,8 +496,11 @@ class Differential:
       `no-failing-input-found`, with the disagreeing requests in the replay file).
     """
 
-    def __init__(self, rep, harness_cmd, env=None, spec_ops=None, name='unit'):
+    def __init__(self, rep, harness_cmd, env=None, spec_ops=None, name='unit', oracles=None):
         self.rep = rep
+        # op -> function(req, impl_output) -> driver request (tuple) answering OK / BAD / NOTWF:
+        # the specification evaluated as a predicate on the implementation's output
+        self.oracles = oracles or {}
         self.harness = harness_cmd
         self.env = env or ASAN_ENV
         self.driver = [driver_path()]
@@ -503,11 +523,26 @@ class Differential:
         lines = [self.line(r) for r in reqs]
         impl = run_batch(self.harness, lines, self.env)
         model = run_batch(self.driver, ['M ' + l for l in lines])
-        sidx = [i for i, r in enumerate(reqs) if self.has_spec(r[0])]
-        sres = run_batch(self.driver, ['S ' + lines[i] for i in sidx])
+        sidx = [i for i, r in enumerate(reqs) if self.has_spec(r[0]) or r[0] in self.oracles]
+        slines = []
+        for i in sidx:
+            r = reqs[i]
+            if r[0] in self.oracles:
+                if impl[i].startswith('FAULT') or impl[i] in ('ERR', 'BADOP'):
+                    slines.append('S nop')
+                else:
+                    slines.append('S ' + self.line(self.oracles[r[0]](r, impl[i])))
+            else:
+                slines.append('S ' + lines[i])
+        sres = run_batch(self.driver, slines)
         spec = [None] * len(reqs)
         for i, s in zip(sidx, sres):
-            spec[i] = s
+            if s == 'NOTWF' or s == 'BADOP':
+                spec[i] = None           # outside the specification's domain (hypothesis H fails)
+            elif reqs[i][0] in self.oracles:
+                spec[i] = impl[i] if s == 'OK' else 'ORACLE-REJECTS(' + s + ')'
+            else:
+                spec[i] = s
         return impl, model, spec
 
     def run(self, reqs, H=None, classify=None, shrink=True, max_report=5):
